@@ -1,3 +1,4 @@
+import Agd.Tie.TrC01
 import Agd.Lemmas.Serve
 import Agd.Tie.C01
 /-!
@@ -274,6 +275,100 @@ theorem quic_orig_counterexample :
   have := h [0, 20, 0, 0, 0, 0, 0, 1, 0, 0, 0, 0, 0, 0, 6, 118, 105, 99, 116, 105, 109, 0, 0, 1, 0, 1]
             []
             [0, 12, 0xab, 0xcd, 1, 0, 0, 1, 0, 0, 0, 0, 0, 0]
+  revert this
+  decide
+
+/-- **doq_read_delivery_irrelevant.** What the DoQ reader hands to `Unpack` depends
+on the bytes the client delivered alone: not on how QUIC cut them into `Read`
+results, not on whether the STREAM FIN came with the last data, in a frame of its
+own, or not at all before the read deadline, and not on what the pooled buffer
+held before. -/
+theorem doq_read_delivery_irrelevant (cap : Nat) (pool₁ pool₂ : List Nat) (reads₁ reads₂ : List QRead)
+    (h : delivered reads₁ = delivered reads₂) :
+    quicRead cap pool₁ reads₁ = quicRead cap pool₂ reads₂ := by
+  rw [quicRead_delivered, quicRead_delivered, h, quic_payload_own_bytes, quic_payload_own_bytes]
+
+/-- **doq_complete_query_read.** Every message of at least a header that fits the
+read buffer together with its two length octets is handed to `Unpack` whole,
+exactly as sent, however the stream was delivered and however it ended after the
+last octet of the message (`hlt`: a length prefix can announce it). -/
+theorem doq_complete_query_read (cap : Nat) (pool b : List Nat) (reads : List QRead)
+    (hd : delivered reads = frameDoQ b) (h10 : 10 ≤ b.length) (hfit : b.length + 2 ≤ cap)
+    (hlt : b.length < 65536) :
+    quicRead cap pool reads = some b := by
+  rw [quicRead_delivered, hd]
+  have : (frameDoQ b).take cap = frameDoQ b := by
+    apply List.take_of_length_le
+    simp only [frameDoQ, List.length_append, List.length_cons, List.length_nil]; omega
+  rw [this]
+  exact quicPayload_frame_some pool b h10 hlt
+
+/-- The same three read scripts for one 12-octet message in a 14-octet buffer:
+FIN with the data, FIN in a call of its own (the buffer is full by then: `readAll`
+reports `io.ErrShortBuffer`), and no FIN at all, cut into three `Read` results. -/
+def sampleFrame : List Nat := [0, 12, 0xab, 0xcd, 1, 0, 0, 0, 0, 0, 0, 0, 0, 0]
+example : delivered [⟨sampleFrame, some .eof⟩] = frameDoQ (sampleFrame.drop 2) := by decide
+example : quicRead 14 [7, 7, 7] [⟨sampleFrame, some .eof⟩] = some (sampleFrame.drop 2) := by decide
+example : quicRead 14 [] [⟨sampleFrame, none⟩, ⟨[], some .eof⟩] = some (sampleFrame.drop 2) ∧
+    (readAll 14 [⟨sampleFrame, none⟩, ⟨[], some .eof⟩] []).2 = .shortBuffer := by decide
+example : quicRead 64 [] [⟨[0], none⟩, ⟨[12, 0xab, 0xcd], none⟩, ⟨sampleFrame.drop 4, none⟩] = some (sampleFrame.drop 2) ∧
+    (readAll 64 [⟨[0], none⟩, ⟨[12, 0xab, 0xcd], none⟩, ⟨sampleFrame.drop 4, none⟩] []).2 = .other := by decide
+
+/-- **doq_max_size_query_read.** With the buffer of the (repaired) code every message
+of at least a header that a length prefix can announce — up to 65535 octets, the
+same as on TCP — is handed to `Unpack` whole, however the stream was delivered. -/
+theorem doq_max_size_query_read (pool b : List Nat) (reads : List QRead)
+    (hd : delivered reads = frameDoQ b) (h10 : 10 ≤ b.length) (hmax : b.length ≤ 65535) :
+    quicRead quicBufSize pool reads = some b :=
+  doq_complete_query_read quicBufSize pool b reads hd h10 (by unfold quicBufSize; omega) (by omega)
+
+/-- **doq_complete_query_served.** Tied to the serving model: every message of at
+least a header and at most 65535 octets sent over DoQ reaches `Unpack` whole and
+is served as on every other stream transport. -/
+theorem doq_complete_query_served (pool b : List Nat) (unpack : List Nat → Option Msg) (o : Outcome) (wok : Bool)
+    (h10 : 10 ≤ b.length) (hmax : b.length ≤ 65535) :
+    serveBytes .doq pool b unpack o wok = serveWire .doq (unpack b) o wok := by
+  have hlt : b.length < 65536 := by omega
+  unfold serveBytes unpackInput
+  have hbig : ¬ (quicBufSize < b.length + 2) := by unfold quicBufSize; omega
+  simp only [hbig, if_false, quicPayload_frame_some pool b h10 hlt]
+
+example : 10 ≤ (sampleWire).length ∧ sampleWire.length ≤ 65535 := by decide
+
+/-- **doq_max_message_counterexample.** (Finding, signature
+`doq-max-size-query-rejected`, repaired.)  The read buffer of the code before the
+fix was `dns.MaxMsgSize` octets for length prefix *and* message, so the two
+largest messages a length prefix can announce (65534 and 65535 octets, which TCP,
+DoT and DoH accept) were never handed to `Unpack`: the stream was answered with
+`DOQ_PROTOCOL_ERROR`.  `doq_max_size_query_read` is the statement for the buffer
+of `dns.MaxMsgSize + 2` octets. -/
+theorem doq_max_message_counterexample :
+    ¬ (∀ (pool b : List Nat) (reads : List QRead), delivered reads = frameDoQ b → 10 ≤ b.length →
+        b.length ≤ 65535 → quicRead quicBufSizeLegacy pool reads = some b) := by
+  intro h
+  obtain ⟨b, hlen⟩ : ∃ b : List Nat, b.length = 65534 := ⟨List.replicate 65534 0, List.length_replicate⟩
+  have h1 := h [] b [⟨frameDoQ b, some .eof⟩] rfl (by omega) (by omega)
+  rw [quicRead_delivered] at h1
+  have h2 := quicPayload_cut_none quicBufSizeLegacy [] b (by unfold quicBufSizeLegacy; omega)
+    (by unfold quicBufSizeLegacy; omega) (by omega)
+  have hd : delivered [⟨frameDoQ b, some .eof⟩] = frameDoQ b := rfl
+  rw [hd, h2] at h1
+  cases h1
+
+/-- **doq_strict_reader_counterexample.** A reader that fails on every error of
+`readAll` — instead of consulting it only when less than a header arrived — does
+not have `doq_complete_query_read`: it rejects a complete query that fills the
+buffer exactly when the FIN comes in a `Read` of its own, and every complete query
+whose client has not sent FIN when the read deadline fires.  Replayed on the real
+code by the harness (DoQ delivery classes `fin-own-read` at the size boundary and
+`no-fin`). -/
+theorem doq_strict_reader_counterexample :
+    ¬ (∀ (cap : Nat) (pool b : List Nat) (reads : List QRead), delivered reads = frameDoQ b → 10 ≤ b.length →
+        b.length + 2 ≤ cap → b.length < 65536 → quicReadStrict cap pool reads = some b) ∧
+    quicReadStrict 64 [] [⟨sampleFrame, none⟩] = none := by
+  refine ⟨?_, by decide⟩
+  intro h
+  have := h 14 [] (sampleFrame.drop 2) [⟨sampleFrame, none⟩, ⟨[], some .eof⟩]
   revert this
   decide
 
@@ -578,6 +673,12 @@ theorem json_wire_variant (j : JSONReq) (id : Nat) (o : Outcome) :
 #print axioms early_dispose_counterexample
 #print axioms quic_payload_own_bytes
 #print axioms quic_orig_counterexample
+#print axioms doq_read_delivery_irrelevant
+#print axioms doq_complete_query_read
+#print axioms doq_max_size_query_read
+#print axioms doq_complete_query_served
+#print axioms doq_max_message_counterexample
+#print axioms doq_strict_reader_counterexample
 #print axioms json_front_end
 #print axioms answer_is_pipelines
 #print axioms spec_table
@@ -594,3 +695,11 @@ theorem json_wire_variant (j : JSONReq) (id : Nat) (o : Outcome) :
 #print axioms json_wire_variant
 
 end Agd.Serve
+#print axioms Agd.Tie.TrC01.translation_complete
+#print axioms Agd.Tie.TrC01.acceptMsg_tr
+#print axioms Agd.Tie.TrC01.at_most_one_server_write
+#print axioms Agd.Tie.TrC01.ignored_gets_nothing
+#print axioms Agd.Tie.TrC01.rejected_never_reaches_handler
+#print axioms Agd.Tie.TrC01.accepted_served_by_handler
+#print axioms Agd.Tie.TrC01.dispose_is_last
+#print axioms Agd.Tie.TrC01.undecodable_dropped
